@@ -4709,7 +4709,11 @@ func (stmt *SelectStmt) genScanSpecs(tx *SQLTx, params map[string]interface{}) (
 
 	var sortingIndex *Index
 	if preferredIndex == nil {
-		sortingIndex = stmt.selectSortingIndex(groupByCols, orderByCols, table, rangesByColID)
+		// history and diff sources are served by the primary index only: do not pick
+		// a secondary index for the ORDER BY just to reject it below
+		if !tableRef.history && !tableRef.diff {
+			sortingIndex = stmt.selectSortingIndex(groupByCols, orderByCols, table, rangesByColID)
+		}
 	} else {
 		sortingIndex = preferredIndex
 	}
